@@ -328,6 +328,28 @@ def runHandlers (sup : List String) :
     (h, rep.answered, st'[(stores h).length]?) ::
       runHandlers sup (fun k => if k = h then st' else stores k) rest
 
+/-! ### Session ids that repeat
+
+`generate_session_id()` is an extension point: a host's subclass may hand out an id that is still
+live (a counter per k creations, a short cycle, a constant).  The store is then keyed: creating a
+session under a live id replaces the record under that id. -/
+
+def storePut (st : List (Nat × String)) (k : Nat) (v : String) : List (Nat × String) :=
+  (k, v) :: st.filter (fun e => e.1 ≠ k)
+
+def storeGet (st : List (Nat × String)) (k : Nat) : Option String :=
+  (st.find? (fun e => e.1 = k)).map (·.2)
+
+/-- `gen n` is the id the n-th creation gets.  Per step: the answered version and what the store
+holds, right after the step, under the id handed out for it. -/
+def runInitsIds (sup : List String) (gen : Nat → Nat) :
+    Nat → List (Nat × String) → List InitStepG → List (String × Option String)
+  | _, _, [] => []
+  | n, st, (r, _carry, choice) :: rest =>
+    let rep := handleInitializeG sup choice r
+    let st' := storePut st (gen n) rep.recorded
+    (rep.answered, storeGet st' (gen n)) :: runInitsIds sup gen (n + 1) st' rest
+
 def handshakeG (clientSup : List String) (pref : Option String) (serverSup : List String)
     (choice : String) : Outcome × List Ev × Option String :=
   match proposed clientSup pref with
